@@ -67,6 +67,17 @@ def run(ctx):
     _effects(r, p, rt, fx)
     _gating(r, p, cg, rt)
     literal_guard(r, p, "C03.literal")
+    # the per-rule effect classes above describe what a fix does to the tokens it *selected*; that attribution is only
+    # meaningful if the selection is made on a fresh index (shared with C18.remap): a stale index makes a case rule
+    # rewrite whatever token now sits at the remembered position (e.g. a comment)
+    from . import c18 as _c18
+
+    scratch = Result("C18")
+    _c18._remap(scratch, ctx, p, rt, summ)
+    for f in scratch.findings:
+        r.fail("C03.effect", "index-freshness:" + f.key, "a rule's fix can land on tokens it did not select: " + f.message, f.loc, path=f.path)
+    if not scratch.findings:
+        r.ok("C03.effect", "index-freshness", "every fix that can shift token positions is followed by an index rebuild (remap), so later rules select the tokens they name")
     return r
 
 
